@@ -11,7 +11,12 @@ This check is the edge stream of DESIGN.md §11 C07:
 A panic / hang / abort is tolerated only as a reproduction of an OPEN finding whose id is derived from
 the model's predicted panic site (or, outside the model, from the location printed on stderr).  The witnesses
 of the findings FIXED in /repo (c07_cases.fixed_witness_cases) stay in the stream and must now end as stated
-there - with output, or with a diagnostic naming the file - in every language; anything else is a violation."""
+there - with output, with a diagnostic naming the file, with the generation error naming the constant, or with
+the configuration error - in every language and in both modes; anything else is a violation.
+A run that fails at GENERATION time (the back end returns Err: exit 1, "typeshare failed to generate types: ..")
+is judged with the extracted Spec.C07Spec.c07_item_rejection / c07_config_rejection on the error the model
+predicts: a rejected ITEM must be reported with the offending file named - it is not (open finding
+C07-generation-error-no-file, reproduced on every such run); a configuration error has no file to name."""
 import concurrent.futures, difflib, json, os, pathlib, re, shutil, signal, subprocess, sys, time
 import vf, front, back
 import c07_cases
@@ -29,7 +34,9 @@ LANGS = [('typescript', 'typescript', 'ts', [], {}),
 LANG = {l[0]: l for l in LANGS}
 GRACE = 1.0          # seconds a process may live on after printing a panic message before it counts as hung
 FRONT_SITES = ('parser.rs', 'rust_types.rs', 'rename.rs')
-MSG = {'visitors.rs:401': r'base name not in use statement'}
+MSG = {}
+GEN_FINDING = 'C07-generation-error-no-file'
+GEN_PREFIX = 'typeshare failed to generate types: '
 ENV = dict(vf.ENV, RUST_BACKTRACE='0')
 ENV.pop('RUST_LOG', None)
 PANIC_RE = re.compile(r"thread '([^']*)'(?: \(\d+\))? panicked at ([^\n:]+):(\d+):\d+:\n([^\n]*)")
@@ -203,39 +210,15 @@ def multi_job(src, lang, full=False):
     return {'files': {'tree/mycrate/src/lib.rs': src}, 'args': ['--lang', l, '-d', '{d}/out'] + extra + ['{d}/tree'], 'full': full}
 
 
-# ------------------------------------------------------------------ multi-file: visitors.rs ItemUseIter, replayed on the AST
-def use_trees(items):
-    for it in items:
-        if it[0] == 'use':
-            yield it[1]
-        elif it[0] == 'nest':
-            yield from use_trees(it[1])
-
-
-def use_panics(tree):
-    """visitors.rs:406-443: LIFO walk; resolve_crate_name() expects a base name (set by the first Path popped)"""
-    stack, base = [tree], None
-    while stack:
-        t = stack.pop()
-        if t == 'uglob' or t[0] == 'uname':
-            if base is None:
-                return True
-        elif t[0] == 'upath':
-            if base is None:
-                base = t[1]
-            stack.append(t[2])
-        elif t[0] == 'ugroup':
-            stack.extend(t[1])
-    return False
-
-
 # ------------------------------------------------------------------ model predictions for the binary
 def predict(gen, front_model, lang):
     """gen: canonical answer of gen_src; front_model: canonical answer of (parse ..). -> (category, site or None, stage)"""
     k = gen[0]
     if k == 'ok':
         return ('ok', None, None)
-    if k in ('none', 'parse_err', 'parse_errors', 'err'):
+    if k == 'err':
+        return ('diag', None, 'err', gen[1])          # generation-stage error: the constructor of Model/Outcome.v perr
+    if k in ('none', 'parse_err', 'parse_errors'):
         return ('diag', None, k)
     if k == 'panic':
         stage = 'front' if front_model[0] == 'panic' else 'back'
@@ -245,6 +228,31 @@ def predict(gen, front_model, lang):
     return (k, None, None)
 
 
+def judge_fixed(c, lk, ob, o):
+    """a witness of a finding fixed in /repo must end exactly as recorded. -> (what was expected, text of the regression or None)"""
+    expect = c['expect']
+    if lk == 'scala-nopkg' and expect == 'ok':
+        expect = 'config'              # the missing package is reported whatever the input (scala.rs:131, fixed)
+    err = o['stderr']
+    outputs = [x for x in ob['outs'] if not x.startswith('tree')]
+    if expect == 'ok':
+        bad = ob['cat'] != 'ok'
+        words = 'exit 0 with output'
+    elif expect == 'diag':
+        bad = ob['cat'] != 'diag' or ob['rc'] != 1 or 'lib.rs' not in err
+        words = 'exit 1 with a diagnostic naming the file'
+    elif expect == 'gen':
+        m = re.search(r'const (\w+)', c['src'])
+        msg = c07_cases.GEN_MESSAGE[lk] % m.group(1)
+        bad = ob['cat'] != 'diag' or ob['rc'] != 1 or GEN_PREFIX + msg not in err or bool(outputs)
+        words = f'exit 1 with the generation error {msg!r} and no output file'
+    else:
+        bad = ob['cat'] != 'diag' or ob['rc'] != 1 or GEN_PREFIX + c07_cases.CONFIG_MESSAGE not in err or bool(outputs)
+        words = f'exit 1 with the configuration error {c07_cases.CONFIG_MESSAGE!r} and no output file'
+    return expect, (f'witness of the fixed finding {c["fixed"]}: expected {words}, observed {ob["cat"]} (exit {ob["rc"]}) at {ob["site"]}'
+                    + (f', files written: {outputs}' if outputs and expect in ('gen', 'config') else '') + ': regression') if bad else None
+
+
 def run(chk):
     chk.rule = ('edge stream: (a) seeded supported programs (lib/progs.py) with ONE planted edge construct - container / smart pointer without type arguments '
                 '(24 spellings x 13 wrappers) in a struct field, struct-variant field, tuple variant, alias, newtype, const type, field- or item-level '
@@ -252,13 +260,16 @@ def run(chk):
                 'rename_all rule; consts; non-ASCII type names; odd tag/content keys; shadowing alias generics; 30% under serde(skip)/typeshare(skip), some under '
                 'cfg(target_os) with --target-os; (b) ~1000 hand-written edge files (annotations on every item kind, attributes that are not meta lists, nesting '
                 'depth 30-200 of types / modules / expressions, sizes to 3000 members, raw identifiers, generics, visibility, consts, enums without variants...); '
-                '(c) unparsable text with and without the #[typeshare marker; (d) multi-file mode with 28 `use` forms at 6 positions; (e) file-system and '
-                'configuration edges and the collector send race on the binary; (f) the witnesses of the findings fixed in /repo, every language. Each source runs through libdrive parse + model + leaf_complete, and through the '
-                'real binary under timeout 10 for the language configurations the model predicts a panic for plus rotating others (thorough: all 7). '
+                '(c) unparsable text with and without the #[typeshare marker; (d) multi-file mode with 28 `use` forms at 6 positions (libdrive parse with '
+                'multi_file against the extracted Model.MultiFile.parse_file_multi: outcome, item counts, import pairs); (e) file-system and '
+                'configuration edges and the collector send race on the binary; (f) the witnesses of the findings fixed in /repo, every language, -o and -d. '
+                'Each source runs through libdrive parse + model + leaf_complete, and through the '
+                'real binary under timeout 10 for the language configurations the model predicts a panic or a generation error for plus rotating others (thorough: all 7). '
                 'non-trivial = distinct (source text, target-os, mode) edge inputs other than the baselines')
     chk.assumptions = ['syn is not modelled: the model receives the AST harness/libdrive/src/ast.rs (syn) produces from the same text',
-                       'multi-file mode, the directory walk, file reading, the collector thread and the output writer have no Gallina model: they are observed on the real binary; '
-                       'the `use` panic (visitors.rs:401) is predicted by a Python replay of ItemUseIter on the AST',
+                       'the directory walk, file reading, the collector thread and the output writer are observed on the real binary only; multi-file parsing '
+                       '(visitors.rs ItemUseIter, visit_path, reconcile_referenced_types) is compared per file with Model.MultiFile.parse_file_multi (crate mycrate, '
+                       'no ignored types, identity hash order: the cases have no two imports of one name), whole workspaces are C14\'s subject',
                        f'a process still alive {GRACE}s after printing a panic message is counted as hung (it is killed early instead of waiting for `timeout 10`); '
                        'a fixed sample of such cases is run with the full timeout and must end with exit status 124',
                        'stack exhaustion depends on the build profile (debug here) and thread stack size; the model has no stack',
@@ -277,6 +288,30 @@ def run(chk):
         c['k'] = k
     corr = []          # good but model and implementation disagree
     by_site = {}
+    # Spec.C07Spec.c07_item_rejection / c07_config_rejection, extracted, on every constructor of perr
+    eclass = {row[0]: ('item' if row[1] == 'true' else 'config' if row[2] == 'true' else None) for row in vf.model(['(c07_error_classes)'])[0]}
+    if sorted(k for k, v in eclass.items() if v) != ['EConstUnsupported', 'EGenericKeyForbiddenInTS', 'EGenericsForbiddenInGo', 'EPackageRequired', 'EUnsupportedSpecialType']:
+        chk.violation('error-classes', {'classes': eclass}, 'Spec.C07Spec error classes are not the ones this check was written for', no_input=True)
+
+    def generation_error(name, payload, ob, o, pred):
+        """the run ended with a diagnostic where the model predicts a generation-stage Err: judged with the extracted classes.
+        -> True when the case is settled (finding reproduced or violation), False to go on with the ordinary comparison"""
+        kind = eclass.get(pred[3])
+        if GEN_PREFIX not in o['stderr'] or ob['rc'] != 1:
+            chk.violation(name, payload, f'the model predicts the generation error {pred[3]}; the binary ends with exit {ob["rc"]} without "{GEN_PREFIX.strip()}"')
+            return True
+        if kind == 'item':
+            chk.count('generation_item_rejections')
+            if 'lib.rs' in o['stderr']:
+                chk.count('generation diagnostic names the file (recorded finding does not reproduce here: ' + GEN_FINDING + ')')
+                return False
+            fail(name, dict(payload, error=pred[3]), f'a source item is rejected at generation time ({pred[3]}): exit 1, but the diagnostic does not name the offending file', GEN_FINDING)
+            return True
+        if kind == 'config':
+            chk.count('generation_config_rejections')
+            return False
+        chk.violation(name, payload, f'the model predicts a generation-stage error {pred[3]} that Spec.C07Spec classifies neither as item nor as configuration rejection', no_input=True)
+        return True
 
     def no_longer(fid):
         """DESIGN §7 row 5: the implementation is fine where the model (of the unchanged tree) predicts the panic of a RECORDED finding"""
@@ -402,8 +437,8 @@ def run(chk):
         c['preds'] = preds
         front_panic = any(p and p[0] == 'panic' and p[2] == 'front' for p in preds.values())     # the same hang whatever the language
         rot = [LANGS[(c['k'] + i) % len(LANGS)][0] for i in range(2 if quick else 3 if front_panic else len(LANGS))]
-        # every language for which the model predicts a back-end panic (Scala without a package panics on everything: rotation only)
-        back_panic = [lk for lk, p in preds.items() if p and p[0] in ('panic', 'overflow') and p[2] == 'back' and lk != 'scala-nopkg']
+        # every language for which the model predicts a back-end panic or a generation error (Scala without a package fails on everything: rotation only)
+        back_panic = [lk for lk, p in preds.items() if p and (p[0] in ('panic', 'overflow') and p[2] == 'back' or p[2] == 'err') and lk != 'scala-nopkg']
         chosen = []
         if c.get('expect'):      # witness of a finding fixed in /repo: every language configuration it speaks about
             rot = [lk for lk, *_ in LANGS if c.get('langs') is None or lk in c['langs']]
@@ -435,14 +470,12 @@ def run(chk):
             chk.count('cli_runs_with_full_timeout')
             if ob['cat'] == 'panic' and ob['thread'] != 'main' and ob['rc'] != 124:
                 corr.append(dict(payload, note='a worker-thread panic did not end in exit 124 under the full timeout'))
-        if c.get('expect') and not (lk == 'scala-nopkg' and c['expect'] == 'ok'):
+        if c.get('expect') and (c.get('langs') is None or lk in c['langs']):
             # fixed finding: the witness must now PASS exactly as recorded (not merely as the model predicts)
             chk.count('fixed_witness_runs')
-            if ob['cat'] != c['expect'] or (c['expect'] == 'diag' and (ob['rc'] != 1 or 'lib.rs' not in o['stderr'])):
-                chk.violation(name, dict(payload, fixed_finding=c['fixed'], expected=c['expect']),
-                              f'witness of the fixed finding {c["fixed"]}: expected {c["expect"]}'
-                              + (' (exit 1 with a diagnostic naming the file)' if c['expect'] == 'diag' else ' (exit 0 with output)')
-                              + f', observed {ob["cat"]} (exit {ob["rc"]}) at {ob["site"]}: regression')
+            expected, regression = judge_fixed(c, lk, ob, o)
+            if regression:
+                chk.violation(name, dict(payload, fixed_finding=c['fixed'], expected=expected), regression)
                 continue
         if good_cli(ob):
             chk.count('cli_' + ob['cat'])
@@ -450,6 +483,8 @@ def run(chk):
                 chk.violation(name, payload, 'non-zero exit on a parse error, but the diagnostic does not name the offending file')
                 continue
             if pred is None:
+                continue
+            if ob['cat'] == 'diag' and pred[2] == 'err' and generation_error(name, payload, ob, o, pred):
                 continue
             if pred[0] in ('panic', 'overflow') and no_longer(finding_id(pred[1], pred[2], LANG[lk][1])):
                 continue
@@ -486,23 +521,54 @@ def run(chk):
 
     # ---------------- (2b) multi-file mode
     mcases = c07_cases.multi_cases(rng, chk.tier)
-    # a sample of the single-file cases too (front-end triggers behave the same under -d)
+    # a sample of the single-file cases too (front-end triggers behave the same under -d), and every witness of a fixed finding
     extra = [c for c in cases if c['kind'] == 'plant' and not c['tos']][:40 if quick else 400]
-    mall = mcases + [dict(c, name='multi:' + c['name'], kind='multi') for c in extra]
+    mall = mcases + [dict(c, name='multi:' + c['name'], kind='multi') for c in extra] + [dict(c, name='multi:' + c['name']) for c in cases if c.get('expect')]
     muniq = sorted(set(c['src'] for c in mall))
     masts = dict(zip(muniq, vf.impl([{'cmd': 'ast', 'src': s} for s in muniq])))
     mfront = front.run_front([(c['src'], []) for c in mall])
     mlib = vf.impl([{'cmd': 'parse', 'src': c['src'], 'multi_file': True, 'target_os': [], 'crate_name': 'mycrate'} for c in mall])
+    # the extracted Model.MultiFile.parse_file_multi on the same AST
+    mmod = dict(zip(muniq, [None] * len(muniq)))
+    mreq = [s for s in muniq if 'ok' in masts[s]]
+    for s, x in zip(mreq, vf.model([f'(c07_multi {masts[s]["ok"]} {masts[s]["tstrs"]} {S("mycrate")})' for s in mreq])):
+        mmod[s] = x
+
+    def lib_multi_obs(r):
+        """libdrive `parse` (multi_file) -> ('ok', None | (counts.., sorted import pairs)) | ('err' | 'panic' | 'abort', ..)"""
+        if 'panic' in r:
+            return ('panic', r['panic'])
+        if 'abort' in r:
+            return ('abort', r['abort'])
+        if 'err' in r:
+            return ('err', r['err'])
+        pd = r['ok']
+        if pd is None:
+            return ('ok', None)
+        return ('ok', (len(pd['structs']), len(pd['enums']), len(pd['aliases']), len(pd['consts']), len(pd['errors']), sorted((a, b) for a, b in pd['imports'])))
+
+    def model_multi_obs(x):
+        if x is None:
+            return None
+        if x[0] == 'panic':
+            return ('panic', x[1])
+        if x[0] == 'err':
+            return ('err', x[1] if isinstance(x[1], str) else x[1][0])
+        if x[1] == 'none':
+            return ('ok', None)
+        v = x[1][1]
+        return ('ok', tuple(int(n[1:]) for n in v[:5]) + (sorted((vf.unS(p[0]), vf.unS(p[1])) for p in v[5]),))
+
     mjobs = []
     for k, (c, fm, lib) in enumerate(zip(mall, mfront, mlib)):
         a = masts[c['src']]
         marker = '#[typeshare' in c['src']
-        usep = False
-        if 'ok' in a and marker:
-            usep = any(use_panics(t) for t in use_trees(vf.parse_sx(a['ok'])[2]))
-        c.update(k=k, usep=usep, marker=marker, syn_ok='ok' in a, front_model=fm['model'], lib=front.impl_canon(lib))
-        for i in range(1 if quick else 3):
-            lk = [l for l in LANGS if l[0] != 'scala-nopkg'][(k + i) % 6][0]
+        c.update(k=k, marker=marker, syn_ok='ok' in a, front_model=fm['model'], lib=lib_multi_obs(lib), multi_model=model_multi_obs(mmod[c['src']]))
+        if c.get('expect'):
+            chosen = [lk for lk, *_ in LANGS if c.get('langs') is None or lk in c['langs']]
+        else:
+            chosen = [[l for l in LANGS if l[0] != 'scala-nopkg'][(k + i) % 6][0] for i in range(1 if quick else 3)]
+        for lk in chosen:
             mjobs.append((c, lk, multi_job(c['src'], lk)))
     gm = {}
     greq = [(c['k'], lk, f'(gen_src {LANG[lk][1]} {back.cfg_sx(LANG[lk][4])} {masts[c["src"]]["ok"]} {masts[c["src"]]["tstrs"]} ())') for c, lk, _ in mjobs if c['syn_ok']]
@@ -516,10 +582,11 @@ def run(chk):
         chk.count('cli_multi_runs')
         chk.nontrivial.add(('multi', c['src']))
         ob = observe(o, sm)
-        # prediction: acceptable panic sites on the worker, else what the single-file pipeline predicts
+        # prediction: a panic site of the (multi-file) front-end model on the worker, else what the single-file pipeline predicts
         sites = set()
-        if c['usep']:
-            sites.add('visitors.rs:401')
+        mm = c['multi_model']
+        if mm is not None and mm[0] == 'panic' and c['marker']:
+            sites.add(mm[1])
         if c['front_model'][0] == 'panic' and c['marker']:
             sites.add(c['front_model'][1])
         g = gm.get((c['k'], lk))
@@ -533,26 +600,48 @@ def run(chk):
             pred = ('ok', None, 'nothing to generate')
         else:
             p = predict(g, c['front_model'], lk)
-            pred = (p[0], [p[1]] if p[1] else None, p[2])
+            pred = (p[0], [p[1]] if p[1] else None) + tuple(p[2:])
         payload = {'stage': 'binary, multi-file mode (-d)', 'case': c['name'], 'desc': c['desc'], 'lang': lk, 'source': c['src'][:4000], 'args': job['args'],
-                   'observed': ob, 'predicted': pred, 'library_multi_file_parse': c['lib'][0:2] if c['lib'][0] in ('panic', 'abort', 'err') else c['lib'][0]}
+                   'observed': ob, 'predicted': pred, 'library_multi_file_parse': c['lib'], 'model_multi_file_parse': mm}
         name = f'multi-{c["k"]}-{lk}'
-        # the library in multi-file mode must agree with the use-replay as well (once per case)
+        # the library in multi-file mode against Model.MultiFile.parse_file_multi: outcome, item counts, import pairs (once per case)
         if c['k'] not in seen_lib:
             seen_lib.add(c['k'])
-            lib_panics = c['lib'][0] == 'panic'
-            if lib_panics != bool(sites):
-                corr.append(dict(payload, note='parser::parse (multi_file) and the predicted panic sites disagree'))
-            elif lib_panics and sites == {'visitors.rs:401'} and not re.search(MSG['visitors.rs:401'], str(c['lib'][1])):
-                corr.append(dict(payload, note='library panic message does not fit visitors.rs:401'))
+            chk.count('multi_front_cases')
+            if mm is not None and mm[0] == 'panic':
+                # Props/C07.C07_multi_file_front_end_total_partial has no hypothesis: re-checked on the extracted code
+                chk.violation(f'theorem-multi-{c["k"]}', payload, f'the extracted model of parser::parse (multi_file) panics at {mm[1]}: Props/C07 vs extraction', no_input=True)
+            if c['lib'][0] in ('panic', 'abort'):
+                chk.count('multi_front_impl_' + c['lib'][0])
+                if c['lib'][0] == 'abort' and c['deep'] >= 30:
+                    fail(f'multi-front-{c["k"]}', payload, 'the library aborts (stack exhausted) in multi-file mode', 'C07-stack-overflow-deep-nesting')
+                else:
+                    fail(f'multi-front-{c["k"]}', payload, f'parser::parse (multi_file = true) panics: {c["lib"][1]!r}; the model predicts {mm}')
+            elif mm is None:
+                chk.count('multi_front_model_unavailable (no AST)')
+            elif c['lib'] == mm:
+                chk.count('multi_front_agree_' + ('none' if mm[1] is None else mm[0]))
+                if mm[0] == 'ok' and mm[1] is not None and mm[1][5]:
+                    chk.count('multi_front_cases_with_imports')
+            else:
+                corr.append(dict(payload, note='parser::parse (multi_file) and Model.MultiFile.parse_file_multi disagree'))
         if c['k'] % 61 == 0:
-            chk.sample({'case': c['name'], 'lang': lk, 'source': c['src'][:200], 'observed': {k2: ob[k2] for k2 in ('cat', 'rc', 'site', 'thread')}, 'predicted': pred})
+            chk.sample({'case': c['name'], 'lang': lk, 'source': c['src'][:200], 'observed': {k2: ob[k2] for k2 in ('cat', 'rc', 'site', 'thread')}, 'predicted': pred,
+                        'library_multi_file_parse': c['lib'], 'model_multi_file_parse': mm})
+        if c.get('expect'):
+            chk.count('fixed_witness_runs_multi')
+            expected, regression = judge_fixed(c, lk, ob, o)
+            if regression:
+                chk.violation(name, dict(payload, fixed_finding=c['fixed'], expected=expected), 'multi-file mode: ' + regression)
+                continue
         if good_cli(ob):
             chk.count('cli_multi_' + ob['cat'])
             if ob['cat'] == 'diag' and pred[2] in ('parse_err', 'parse_errors') and 'lib.rs' not in o['stderr']:
                 chk.violation(name, payload, 'multi-file mode: non-zero exit on a parse error, but the diagnostic does not name the offending file')
                 continue
-            if pred[0] in ('panic', 'overflow') and all(no_longer(stderr_finding_id(x) if x == 'visitors.rs:401' else finding_id(x, pred[2], LANG[lk][1])) for x in pred[1]):
+            if pred[0] in ('panic', 'overflow') and all(no_longer(finding_id(x, pred[2], LANG[lk][1])) for x in pred[1]):
+                continue
+            if ob['cat'] == 'diag' and pred[2] == 'err' and generation_error(name, payload, ob, o, pred):
                 continue
             if pred[0] != ob['cat']:
                 corr.append(payload)
@@ -566,8 +655,7 @@ def run(chk):
                 fail(name, payload, f'the binary panics at the predicted site but on thread {ob["thread"]!r} with exit {ob["rc"]}')
             else:
                 by_site[ob['site'] + '@multi'] = by_site.get(ob['site'] + '@multi', 0) + 1
-                fid = stderr_finding_id(ob['site']) if ob['site'] == 'visitors.rs:401' else finding_id(ob['site'], stage, LANG[lk][1])
-                fail(name, payload, f'the binary panics at {ob["site"]} in multi-file mode', fid)
+                fail(name, payload, f'the binary panics at {ob["site"]} in multi-file mode', finding_id(ob['site'], stage, LANG[lk][1]))
         else:
             fail(name, payload, f'multi-file mode: {ob["cat"]} at {ob["site"]} (exit {ob["rc"]}); predicted {pred}')
 
@@ -811,6 +899,9 @@ def replay(chk, path):
         if r['ast']:
             a = vf.impl([{'cmd': 'ast', 'src': d['source']}])[0]
             print('front_complete, leaves:', vf.model([f'(c07 {a["ok"]} {a["tstrs"]} {Lst(tos, S)})'])[0])
+            if '-d' in (d.get('args') or []):
+                print('library parse (multi)  :', str(vf.impl([{'cmd': 'parse', 'src': d['source'], 'multi_file': True, 'target_os': [], 'crate_name': 'mycrate'}])[0])[:600])
+                print('model parse_file_multi :', str(vf.model([f'(c07_multi {a["ok"]} {a["tstrs"]} {S("mycrate")})'])[0])[:600])
             if d.get('lang'):
                 lk = d['lang']
                 print('model  gen_src        :', str(back.model_canon(vf.model([f'(gen_src {LANG[lk][1]} {back.cfg_sx(LANG[lk][4])} {a["ok"]} {a["tstrs"]} {Lst(tos, S)})'])[0]))[:300])
